@@ -43,7 +43,14 @@ def expected(variant, types):
         elif variant == 8:
             if t == 3: log += [(1, REL, i)]
             if t == 5: log += [(2, CS, i)]
-    fl = {0: [1], 1: [1, 2], 2: [1], 3: [1, 2, 3], 4: [], 5: [1, 2], 6: [1], 7: [1, 2, 3], 8: [], 9: []}[variant]
+        elif variant in (10, 11):
+            nc = 0x20 if variant == 10 else 0
+            if t in (1, 2, 3, 4): log += [(1, OBJ, i), (1, ENTITY[t] + nc, i)]
+            if t == 5: log += [(1, CS + nc, i)]
+        elif variant == 12:
+            if t == 5: log += [(1, CS + 0x20, i)]
+            if t == 1: log += [(2, NODE + 0x20, i)]
+    fl = {0: [1], 1: [1, 2], 2: [1], 3: [1, 2, 3], 4: [], 5: [1, 2], 6: [1], 7: [1, 2, 3], 8: [], 9: [], 10: [1], 11: [1], 12: []}[variant]
     log += [(h, FLUSH, 0xff) for h in fl]
     return [(h << 16) | (cb << 8) | i for (h, cb, i) in log]
 
@@ -95,13 +102,14 @@ def harnesses(tier):
     q = tier == 'quick'
     names = {0: 'apply(const Buffer&, handler)', 1: 'apply(Buffer&, h1, h2)', 2: 'apply over const Item range (all item types)', 3: 'apply over non-const Item range, three handlers',
              4: 'lambdas with const Node& / const Way& / const OSMObject&', 5: 'DynamicHandler + static handler', 6: 'apply over ItemIterator<const OSMObject>',
-             7: 'ChainHandler + static handler on a non-const buffer', 8: 'lambdas with Relation& / const Changeset& on a non-const buffer', 9: 'apply_item per item with two handlers'}
+             7: 'ChainHandler + static handler on a non-const buffer', 10: 'handler with const and non-const overloads on a non-const buffer (non-const callbacks expected)',
+             11: 'handler with const and non-const overloads on a const buffer (const callbacks expected)', 12: 'lambdas with Changeset& / Node& on a non-const buffer', 8: 'lambdas with Relation& / const Changeset& on a non-const buffer', 9: 'apply_item per item with two handlers'}
     def tg(n):
         return lambda rnd: [dict(**{'type%d' % k: rnd.choice(CODES) for k in range(n)}, **{'removed%d' % k: rnd.getrandbits(1) for k in range(n)}) for _ in range(6)]
     hs = []
     for v, nm in names.items():
         n = 3 if (v in (0, 2) and not q) else 2
-        hs.append(Harness('dispatch_%d' % v, 'dispatch', h_dispatch, jobs=[dict(variant=v, n=n)], testgen=tg(n),
+        hs.append(Harness('dispatch_%d' % v, 'dispatch_chain' if v == 7 else 'dispatch', h_dispatch, jobs=[dict(variant=v, n=n)], testgen=tg(n),
                           desc='%s: %d items whose type ranges over all 13 item types (entity and non-entity) and whose removed flag is symbolic: the sequence (handler, callback, item) equals the reference dispatch; flush once per handler at the end' % (nm, n),
                           bounds='%d items' % n))
     nd = 4 if q else 5
